@@ -929,3 +929,96 @@ def gen_oddseq(rng):
             q["ft"], q["ft_form"] = ft, rng.choice(["list", "tuple"])
         qs.append(q)
     return {"kind": "oddseq", "seed": seed, "seqids": seqids, "queries": qs}
+
+
+# ---------------------------------------------------------------------------------------------------------
+# 'huge' cases: query bounds far beyond anything stored (2**62 ... 10**20), in every query form
+HUGE_BOUNDS = [2 ** 62, 2 ** 63 - 1, 2 ** 63, 2 ** 64, 10 ** 20]
+HUGE_NEAR = [2 ** 62 - 1, 2 ** 62 + 1, 2 ** 63 - 2, 2 ** 63 + 1, 2 ** 64 - 1, 2 ** 64 + 1, 10 ** 20 + 1, 10 ** 30,
+             99999999999999999999, 2 ** 100]
+SQLITE_MAX = 2 ** 63 - 1          # the largest coordinate a database file can hold
+HUGE_SEQIDS = ["chr1", "ctgH", "2"]
+
+
+def make_huge(seed):
+    """Model features of a 'huge' case: genes with exon / CDS children on 2-3 seqids, at small coordinates, around the first
+    bin end, around 2**29, and a few far out (2**40 .. 2**62, the last bases below 2**63, one over the whole storable range)."""
+    rng = random.Random(seed * 104729 + 11)
+    seqids = HUGE_SEQIDS[:rng.choice([2, 3])]
+    feats = []
+
+    def add(fid, seqid, ft, a, b, strand, parents=()):
+        feats.append({"id": fid, "seqid": seqid, "featuretype": ft, "start": a, "end": b, "strand": strand,
+                      "parents": list(parents)})
+
+    for si, seqid in enumerate(seqids):
+        spots = [rng.randrange(1, 5000), rng.randrange(130000, 131072), 2 ** 29 - rng.randrange(0, 3000),
+                 rng.randrange(1, 10 ** 6), 2 ** rng.randrange(30, 45) + rng.randrange(-3, 4)]
+        for gi, a in enumerate(spots):
+            if rng.random() < 0.2:
+                continue
+            b = a + rng.randrange(200, 4000)
+            strand = rng.choice(STRANDS)
+            gid = "g%d_%d" % (si, gi)
+            add(gid, seqid, "gene", a, b, strand)
+            for ki in range(rng.randrange(1, 4)):
+                x = rng.randrange(a, b)
+                add("%s.k%d" % (gid, ki), seqid, rng.choice(["exon", "exon", "CDS"]), x, min(b, x + rng.randrange(1, 300)),
+                    strand, [gid])
+        # far out: a gene whose children reach towards 2**62 / 2**63 - 1
+        if rng.random() < 0.85:
+            strand = rng.choice(STRANDS)
+            gid = "far%d" % si
+            a = 2 ** rng.randrange(40, 60) + rng.randrange(-2, 3)
+            top = rng.choice([SQLITE_MAX, SQLITE_MAX, SQLITE_MAX - rng.randrange(1, 5), 2 ** 62 + rng.randrange(-2, 3)])
+            add(gid, seqid, "gene", a, top, strand)
+            for ki, (x, y) in enumerate([(a, a + rng.randrange(0, 10 ** 6)), (2 ** 62 - rng.randrange(0, 3), 2 ** 62 + rng.randrange(0, 3)),
+                                         (top - rng.randrange(0, 12), top), (a + 5, top)]):
+                if x <= y and rng.random() < 0.8:
+                    add("%s.k%d" % (gid, ki), seqid, rng.choice(["exon", "CDS"]), x, y, strand, [gid])
+        for li in range(rng.randrange(1, 4)):
+            a = rng.choice([1, rng.randrange(1, 200000), 2 ** 62 - rng.randrange(0, 3), SQLITE_MAX - rng.randrange(0, 20)])
+            b = rng.choice([a, min(SQLITE_MAX, a + rng.randrange(0, 5000)), SQLITE_MAX, 2 ** 62])
+            if a <= b:
+                add("m%d_%d" % (si, li), seqid, rng.choice(["match", "exon"]), a, b, rng.choice(STRANDS))
+    rng.shuffle(feats)
+    return feats
+
+
+def gen_huge(rng):
+    """A 'huge' case: {"kind", "seed", "queries"}; query = {"seqid" (None: omitted), "start", "end" (one of them may be None),
+    "within", "strand", "ft", "gene" (for children / parents limit=)}.  At least one bound of every query is one of
+    HUGE_BOUNDS (75%) or a neighbour / larger value (HUGE_NEAR)."""
+    seed = rng.randrange(1 << 30)
+    feats = make_huge(seed)
+    genes = [f for f in feats if f["featuretype"] == "gene"]
+    seqids = sorted(set(f["seqid"] for f in feats))
+    qs = []
+    for x in HUGE_BOUNDS + [rng.choice(HUGE_BOUNDS + HUGE_NEAR) for _ in range(rng.randrange(3, 7))]:
+        if rng.random() < 0.25:
+            x = rng.choice(HUGE_NEAR)
+        f = rng.choice(feats)
+        q = {"seqid": f["seqid"] if rng.random() < 0.85 else None, "within": rng.random() < 0.5,
+             "strand": rng.choice([None, None, None, "+", "-"]), "ft": None, "gene": None}
+        r = rng.random()
+        if r < 0.62:
+            # the huge value is the END of a two-sided query
+            s = rng.choice([1, 1, max(1, f["start"] + rng.choice([-1, 0, 1])), max(1, f["end"] + rng.choice([-1, 0, 1])),
+                            rng.randrange(1, 200000), 2 ** 29, 2 ** 62, SQLITE_MAX, x])
+            q["start"], q["end"] = min(s, x), x
+        elif r < 0.72:
+            # both bounds huge
+            y = rng.choice(HUGE_BOUNDS + HUGE_NEAR)
+            q["start"], q["end"] = min(x, y), max(x, y)
+        elif r < 0.86:
+            q["start"], q["end"] = None, x
+        else:
+            q["start"], q["end"] = x, None
+        here = [g for g in genes if q["seqid"] is None or g["seqid"] == q["seqid"]]
+        far = [g for g in here if g["id"].startswith("far")]
+        if here:
+            q["gene"] = rng.choice(far if far and rng.random() < 0.6 else here)["id"]
+        if rng.random() < 0.45:
+            q["ft"] = rng.sample(["gene", "exon", "CDS", "match"], rng.choice([1, 2, 2, 3]))
+        qs.append(q)
+    return {"kind": "huge", "seed": seed, "queries": qs}
